@@ -1,5 +1,5 @@
 (* C19 — A token can be shared by concurrent goroutines.  PARTIAL.
-   Statements only; proofs in Proofs/FootprintProofs.v and Proofs/TableProofs.v.
+   Statements only; proofs in Proofs/FootprintProofs.v and Proofs/SharedWritePinProofs.v.
 
    Model: threads over a shared heap with explicit ownership (shared cells of the
    token: block byte arrays WITH ARBITRARY SPARE CAPACITY, symbol-table cells,
@@ -12,7 +12,7 @@
    Runtime remainder (not proved): the Go memory model and scheduler, the
    thread-safety of participle's parser object and of protobuf-go's lazily
    initialised message state. *)
-From BV Require Import Base Footprint FootprintProofs TableProofs.
+From BV Require Import Base Footprint FootprintProofs TableProofs SharedWritePinProofs.
 From BV Require Generated.
 
 (* generic: if every thread writes only what it allocated then, under EVERY
